@@ -459,6 +459,12 @@ class Executor:
         b = self.shared.lib.builtins.get(n.id)
         if b is not None:
             return b
+        import builtins as _py_builtins
+
+        if hasattr(_py_builtins, n.id):
+            # a real Python builtin the executor has no model for: outside the supported subset (undecided),
+            # NOT a NameError of the program
+            raise Unsupported(f"no model for builtin {n.id}")
         raise PyRaise("NameError", n.id)
 
     def e_JoinedStr(self, n, fr):
@@ -673,8 +679,27 @@ class Executor:
         it = g.iter
         if not (isinstance(it, ast.Call) and isinstance(it.func, ast.Name) and it.func.id == "range"
                 and not it.keywords and all(_is_pure(a) or (fhook is not None and _is_pure_minmax(a)) for a in it.args)):
-            return None
-        rng = self.shared.lib.as_symbolic_range(self, self.eval(it, fr))
+            # any other iterable expression (e.g. a helper that RETURNS range(lo, hi)): evaluated exactly once; a
+            # symbolic range is handled like the inline range(...), anything else is handed to the concrete path
+            val = self.eval(it, fr)
+            # [elt for x in <list of symbolic length>] without filter: the element-wise image, like list(map(...))
+            from .lib.ext_symlist import SymList, symlist_map
+
+            if isinstance(val, SymList) and C.concrete_of(z3.simplify(val.len_z())) is None:
+                if not g.ifs and _is_pure(n.elt):
+                    def elt_of(E, x, _n=n, _g=g, _fr=fr):
+                        f = Frame(_fr.qualname, _fr.module, parent=_fr)
+                        f.vars[_g.target.id] = x
+                        return E.eval(_n.elt, f)
+                    return symlist_map(self, Builtin("comprehension.elt", elt_of), val)
+                self._pre_iter = (id(it), val)
+                return None
+            rng = self.shared.lib.as_symbolic_range(self, val)
+            if rng is None or len(rng) != 2:
+                self._pre_iter = (id(it), val)
+                return None
+        else:
+            rng = self.shared.lib.as_symbolic_range(self, self.eval(it, fr))
         if rng is None:
             return None
         lo, hi = rng
@@ -703,7 +728,13 @@ class Executor:
                 out.append(mk(f))
                 return
             g = n.generators[i]
-            for x in self.iterate(self.eval(g.iter, f)):
+            pre = getattr(self, "_pre_iter", None)
+            if i == 0 and pre is not None and pre[0] == id(g.iter):
+                self._pre_iter = None
+                itv = pre[1]  # already evaluated by _symbolic_comp (never twice: side effects)
+            else:
+                itv = self.eval(g.iter, f)
+            for x in self.iterate(itv):
                 self.assign(g.target, x, f)
                 if all(self.truth(self.eval(c, f)) for c in g.ifs):
                     rec(i + 1)
@@ -1046,6 +1077,18 @@ class Executor:
         if isinstance(fn, Closure):
             stub = self.shared.stubs.get(fn.qualname)
             if stub is not None:
+                # a contract stub stands for the REAL function: keyword arguments are bound by the real parameter names
+                # (the stub's own parameter names are irrelevant), so f(a, b) and f(x=a, y=b) reach the stub alike
+                args, kwargs = list(args), dict(kwargs)
+                try:
+                    a_ = fn.node.args
+                    names = [p_.arg for p_ in a_.posonlyargs + a_.args]
+                    if names and names[0] in ("self", "cls") and getattr(fn, "bound", None) is not None:
+                        names = names[1:]
+                    while len(args) < len(names) and names[len(args)] in kwargs:
+                        args.append(kwargs.pop(names[len(args)]))
+                except AttributeError:
+                    pass
                 return stub(self, *args, **kwargs)
             return self.call_closure(fn, args, kwargs)
         if isinstance(fn, BoundMethod):
